@@ -1,3 +1,6 @@
 R BHS.Conc
 R BHS.Crash
 X Conc.crun Conc.cinit Conc.quiescent Conc.cstep Crash.struct_validb
+R BHS.Merkle
+R BHS.Query
+X Merkle.verify Query.by_height_range
